@@ -58,6 +58,18 @@ func c06One(o *out, s string, tag string) {
 			o.fail("", fmt.Sprintf("QuoteIdent(%q) = %q scans as %v %q, not as one IDENT with that value", s, qi, toks, lits), rp)
 		}
 		lexOne(o, qi+" tail", "quoted", false)
+		// ... and directly followed by text that could continue a name: the quoted identifier ends at its closing quote
+		for _, tail := range []string{"tail", "_", "9", "\"more\"", ".x", "$p"} {
+			if !strings.HasPrefix(qi, "\"") {
+				break // written bare: what follows continues the name
+			}
+			o.checked()
+			toks, lits = scanTokens(qi+tail, 3)
+			lexOne(o, qi+tail, "quoted-tight", false)
+			if len(toks) < 2 || toks[0] != influxql.IDENT || lits[0] != s {
+				o.fail("", fmt.Sprintf("QuoteIdent(%q) directly followed by %q scans as %v %q: the identifier does not end at its closing quote", s, tail, toks, lits), rp)
+			}
+		}
 		if s != "" {
 			o.checked()
 			toks, lits = scanTokens(s, 3)
@@ -257,13 +269,28 @@ func propC06(o *out, r *rng, thorough bool) {
 		c06One(o, s, "random")
 		o.nontrivial(s)
 	}
-	pool := []string{"db", "rp", "m", "", "my db", "a.b", "select", "q\"t", "x\\y", "日本", "1st", "with space"}
-	for _, a := range pool {
-		c06Segments(o, []string{a})
-		for _, b := range pool {
-			c06Segments(o, []string{a, b})
-			for _, c := range pool {
-				c06Segments(o, []string{a, b, c})
+	// (segment lists whose dotted spellings coincide - a dot inside a segment - are different lists; each list is
+	// quoted twice in the run, the second time after every other list, in the opposite order)
+	pool := []string{"db", "rp", "m", "", "my db", "a.b", "select", "q\"t", "x\\y", "日本", "1st", "with space", "a", "b", "b.m", "a.b.m", ".", "a."}
+	for pass := 0; pass < 2; pass++ {
+		for i := range pool {
+			a := pool[i]
+			if pass == 1 {
+				a = pool[len(pool)-1-i]
+			}
+			c06Segments(o, []string{a})
+			for j := range pool {
+				b := pool[j]
+				if pass == 1 {
+					b = pool[len(pool)-1-j]
+				}
+				c06Segments(o, []string{a, b})
+				for _, c := range pool {
+					if pass == 1 && len(a)+len(b)+len(c) > 8 {
+						continue
+					}
+					c06Segments(o, []string{a, b, c})
+				}
 			}
 		}
 	}
